@@ -57,6 +57,11 @@ def _open_source(kind: str, prefix: bytes, budget: int, chunks, whole: bytes | N
 def classify(cls, reader, data: bytes, k: int, kind: str, chunks, budget: int, underflow_cls, in_thread: bool = False):
     """Return None when the property held for this case, else an outcome string."""
     src, raw = _open_source(kind, data[:k], budget, chunks, whole=data)
+    if in_thread:
+        try:
+            core.call_in_thread(lambda: None)
+        except core.ThreadUnavailable:
+            in_thread = False
     try:
         val = core.call_in_thread(reader, src) if in_thread else reader(src)
     except underflow_cls:
@@ -122,6 +127,7 @@ def run_task(task: dict) -> dict:
         has_blob = bool(universe.features(cls) & {"bytes", "records"}) or any(
             f.metadata.get("kafka_type") in ("bytes", "records") for c in universe.reachable_classes(cls) for f in dataclasses.fields(c))
         for k_inst in range(task["instances"] + (1 if has_blob else 0)):
+            core.gc_tick()
             run_seed = core.derive_seed(PROP, task["seed"], qn, k_inst)
             rng = core.random.Random(run_seed)
             runs += 1
